@@ -433,7 +433,7 @@ def JOBS(tier):
     jobs = []
     for maxsize in (1, 2):
         for block in (True, False):
-            for script in (0, 1, 2, 3, 4):
+            for script in (0, 1, 2, 3):
                 for other in ("close", "request", "stream", "request+close"):
                     if quick and other == "stream" and script not in (0, 2):
                         continue
@@ -454,8 +454,10 @@ EVIDENCE = {
                         "attempt then retry, streaming + release, 503 with exhausted budget} x every schedule (w1 <= 11, x1 <= 7, w2 <= 11) "
                         "of shared-state accesses: W runs w1 accesses, X runs x1, W runs w2, X finishes, W finishes (two preemptions of W, one of X)",
                "thorough": "w1, w2 <= 30, x1 <= 14 (covers every access of the longest script)"},
-    "outside": ["release_conn=True together with preload_content=False while another thread calls close() (the caller has given the "
-                "connection away before reading: close() then ends the read early)", "three or more running threads; more than two preemptions of the worker", "pre-emption inside queue.LifoQueue's own methods (the "
+    "outside": ["release_conn=True together with preload_content=False under concurrency (script 4 of the harness, not scheduled): the "
+                "caller gives the connection away before reading, so on the unchanged tree another thread's failed attempt or "
+                "close() ends that read early — the pool-state side of it (no connection queued twice) is decided in C01",
+                "three or more running threads; more than two preemptions of the worker", "pre-emption inside queue.LifoQueue's own methods (the "
                 "standard library's lock protects them)", "pre-emption between byte-codes that do not touch pool.pool or the queue (they "
                 "commute with the other thread's steps)"],
     "stubs": ["QueueCls -> TickQueue (same LifoQueue, scheduling point before each operation; blocking waits become hand-overs)",
